@@ -151,6 +151,53 @@ func init() {
 			); err != nil {
 				return err
 			}
+			// the ValueSet routes into a set, fed with the members of a list as they
+			// are (only the list's own marks removed: members may carry marks
+			// nested inside them): refused (panic) or a well-formed set
+			if sh, _ := v.Unmark(); sh.IsKnown() && !sh.IsNull() && sh.Type().IsListType() && sh.LengthInt() > 0 {
+				ety := sh.Type().ElementType()
+				for _, route := range []string{"ValueSet.Add", "AsValueSet", "Union"} {
+					var set cty.Value
+					refused := false
+					func() {
+						defer func() {
+							if recover() != nil {
+								refused = true
+							}
+						}()
+						switch route {
+						case "ValueSet.Add":
+							vs := cty.NewValueSet(ety)
+							for _, m := range sh.AsValueSlice() {
+								vs.Add(m)
+							}
+							set = cty.SetValFromValueSet(vs)
+						case "AsValueSet":
+							set = cty.SetValFromValueSet(sh.AsValueSet())
+						default:
+							a, b := cty.NewValueSet(ety), cty.NewValueSet(ety)
+							for i, m := range sh.AsValueSlice() {
+								if i%2 == 0 {
+									a.Add(m)
+								} else {
+									b.Add(m)
+								}
+							}
+							set = cty.SetValFromValueSet(a.Union(b))
+						}
+					}()
+					if refused {
+						c.Label("valueset-route-refused")
+						continue
+					}
+					if sh.ContainsMarked() {
+						c.Label("valueset-route-with-nested-marks")
+					}
+					if err := wfAll(c, "SetValFromValueSet via "+route+" over the members of "+fmt.Sprintf("%#v", sh), set); err != nil {
+						return err
+					}
+				}
+			}
 			// rebuild collections from their own accessors
 			if u.IsKnown() && !u.IsNull() {
 				ty := u.Type()
